@@ -456,9 +456,6 @@ func c05Run(c *core.Ctx, scn stopScn, h *hist.History, l *hist.Layout, tables []
 		c.Violation("c05:handler-guard", fmt.Sprintf("%s: %s", spec, g), wit(nil))
 		break
 	}
-	if res.ConnsMade > 1 {
-		c.Violation("c05:extra-connection", fmt.Sprintf("%s: one Stream call made %d connections", spec, res.ConnsMade), wit(nil))
-	}
 	if c.WantSample() && ob.reached() {
 		c.Sample(map[string]interface{}{"scenario": scn, "reader_state_at_stop": ob.reader(), "stream_err": errStr(res.Err), "deliveries": len(res.Delivered)})
 	}
